@@ -11,6 +11,7 @@ import meta
 import findings
 import parcheck
 import protomc
+import fixmc
 
 # ---------------------------------------------------------------------------------------
 # sequential-engine properties (monitor: specs/core/CoreTrace.tla)
@@ -46,7 +47,7 @@ SEQ = {
                      "non-trivial = a specify, a struct creation and a write"),
     "C11": dict(families=["accum", "accchain"], scale=2, needs=["op:accum", "accv", "op:set"],
                 rule="accum family; non-trivial = accumulated() requested, values pushed and a write"),
-    "C12": dict(families=["fix", "fixshape"], needs=["wic", "op:set"],
+    "C12": dict(families=["fix", "fixshape"], fixmc=True, needs=["wic", "op:set"],
                 rule="fix family: 1-4 mutually recursive functions with cycle_initial = bottom (0) over 3-bit sets, bodies are "
                      "unions of masked calls, input-controlled (conditionally formed, nested) cycles, default and joining "
                      "cycle_fn, plain consumers and leaves; every function requested as entry point; non-trivial = the "
@@ -59,7 +60,7 @@ SEQ = {
     "C15": dict(families=["diverge"], needs=["panic:iterlimit", "op:set"], scale=0.4,
                 rule="diverge family: f = NOT f under an input switch, plus a convergent cycle and unrelated functions; "
                      "non-trivial = the iteration limit was hit and an input written"),
-    "C26": dict(families=["persist"], scale=6, variant="persist", mode="persist", needs=["restored", "op:set", "dv"],
+    "C26": dict(families=["persist", "persistshare"], scale=6, variant="persist", mode="persist", needs=["restored", "op:set", "dv"],
                 rule="persist family (persistence build): persisted and non-persisted functions, histories with serialize -> drop -> "
                      "deserialize into a fresh database between writes; non-trivial = a restore, a write and a validated reuse"),
     "C23": dict(families=["core", "lru", "struct", "intern", "mixed"], needs=["drop", "retained"],
@@ -68,14 +69,15 @@ SEQ = {
 }
 
 PAR = {
-    "C16": dict(models=["syncproto"], par=["pardag"], needs=["hk:sync_claim", "we", "tstart"],
+    "C16": dict(models=["syncproto"], par=["pardag", "parnest3"], needs=["hk:sync_claim", "we", "tstart"],
                 rule="pardag family: acyclic programs with shared sub-queries, 3 rounds (writes between rounds) of 2-4 real threads "
                      "on clones issuing 1-4 requests each, seeded schedule jitter; non-trivial = threads ran and functions executed"),
     "C17": dict(models=["syncproto"], par=["pardag", "parmemo"], monitors=("par",), needs=["hk:sync_claim", "we", "tstart"],
                 rule="same runs as C16; every WillExecute is checked against the set of keys already executed in the revision"),
-    "C18": dict(models=["syncproto", "syncxfer"], par=["parfix", "parfb"], needs=["hk:sync_claim", "we", "tstart"],
-                rule="fixpoint / fallback cycle programs entered concurrently at different members from 2-4 threads"),
-    "C19": dict(models=["syncproto", "syncxfer"], par=["pardag", "parfix", "parfb", "parpcycle", "parwrite", "parcancel", "parpanic"], monitors=("sync",), needs=["hk:sync_claim", "tstart"],
+    "C18": dict(models=["syncproto", "syncxfer", "fixpoint"], par=["parfix", "parfb", "parnest3"], needs=["hk:sync_claim", "we", "tstart"],
+                rule="fixpoint / fallback cycle programs entered concurrently at different members from 2-4 threads; parnest3: chains of "
+                     "4-6 fixpoint functions with back edges entered by 3-4 threads at distinct members (nested cycles across threads)"),
+    "C19": dict(models=["syncproto", "syncxfer"], par=["pardag", "parfix", "parfb", "parnest3", "parpcycle", "parwrite", "parcancel", "parpanic"], monitors=("sync",), needs=["hk:sync_claim", "tstart"],
                 rule="all parallel families; every protocol event (hook H1) is applied to the SyncOps protocol state and its guard "
                      "and the protocol invariants are evaluated; non-trivial = threads ran and claimed keys"),
     "C24": dict(models=["pagealloc"], par=["paralloc", "parstruct"], monitors=("par",), needs=["tstart", "new"],
@@ -83,10 +85,13 @@ PAR = {
                      "ranges of immortal values outside queries and execute functions creating 150 tracked structs, over 3 rounds of "
                      "fresh clones; parstruct: random struct programs requested concurrently; every id is checked for distinctness, page/slot "
                      "order, single writer per page and read-back of its fields"),
-    "C20": dict(models=["cancel"], par=["parwrite", "parwritefix"], monitors=("par",), needs=["wproc", "tstart", "dscf"],
-                rule="readers on clones while the main handle writes (input write / synthetic write) at a seeded point"),
-    "C21": dict(models=["cancel"], par=["parcancel", "parcancelfix"], monitors=("par",), needs=["cancel_begin", "tstart"],
-                rule="local cancellation tokens cancelled at seeded points while 2-4 threads run requests (incl. fixpoint programs)"),
+    "C20": dict(models=["cancel"], par=["parwrite", "parwritefix", "parwritenest"], monitors=("par",), needs=["wproc", "tstart", "dscf"],
+                rule="readers on clones while the main handle writes (input write / synthetic write / revision-preserving LRU capacity "
+                     "change or eviction) at a seeded point; parwritenest: nested fixpoint cycles cancelled mid-iteration and "
+                     "re-evaluated in the same revision"),
+    "C21": dict(models=["cancel"], par=["parcancel", "parcancelfix", "parcancelnest"], monitors=("par",), needs=["cancel_begin", "tstart"],
+                rule="local cancellation tokens cancelled at seeded points while 2-4 threads run requests (incl. fixpoint programs; "
+                     "parcancelnest: plain consumers above nested fixpoint cycles that keep requesting after the cycle)"),
 }
 
 TIERS = {
@@ -131,6 +136,8 @@ def run_seq(pid, tier, seed, replay):
     else:
         t = TIERS[tier]
         mcinfo = run_mc_part(pid, cfg, tier, seed, binary, wd, results)
+        if cfg.get("fixmc"):
+            mcinfo = run_fixmc_part(pid, tier, seed, binary, wd, results, mcinfo)
         fams = cfg["families"]
         with ThreadPoolExecutor(max_workers=min(8, len(fams))) as ex:
             futs = [ex.submit(seqcheck.run_family, binary, fam, seed * 1000 + i,
@@ -172,6 +179,35 @@ def run_mc_part(pid, cfg, tier, seed, binary, wd, results):
     if info["drift"]:
         log(f"DRIFT: {info['drift']} fetches where salsa's (value, executed, validated) differ from the model's prediction; "
             f"no property predicate failed on them unless a VIOLATION line follows. e.g. {json.dumps(info['drift_samples'][:1])}")
+    return info
+
+
+def run_fixmc_part(pid, tier, seed, binary, wd, results, info):
+    """Exhaustive TLC run of specs/cycle/Fixpoint.tla + replay of its behaviours on the implementation."""
+    info = info or {"states": 0, "transitions": 0, "mc_models": [], "replayed_histories": 0, "replay_fetches_compared": 0,
+                    "drift": 0, "drift_samples": [], "exhaustive": True}
+    mc = fixmc.run_fixmc(tier, wd)
+    jobs = fixmc.replay_jobs(mc, 4000 if tier == "quick" else 0, seed)
+    r = seqcheck.run_family(binary, "mc-fix", seed, 0, 0, wd, jobs=jobs)
+    checked, wrong, drift = fixmc.compare(jobs, r["trace"])
+    results.append(r)
+    info["states"] += mc["distinct"]
+    info["transitions"] += mc["generated"]
+    info["mc_models"].append({"spec": "specs/cycle/Fixpoint.tla", "family": "mc-fix", "constants": mc["consts"],
+                              "programs": len({json.dumps(x["calls"]) for x in mc["replays"]}), "distinct_states": mc["distinct"],
+                              "states_generated": mc["generated"], "depth": mc["depth"], "invariants": fixmc.INVARIANTS,
+                              "leaf_histories_emitted": len(mc["replays"]), "replayed_on_impl": len(jobs),
+                              "value_mismatches": len(wrong), "wall_s": round(mc["wall_s"], 1)})
+    info["replayed_histories"] += len(jobs)
+    info["replay_fetches_compared"] += checked
+    info["drift"] += len(drift)
+    info["drift_samples"] += drift[:3]
+    log(f"[{pid}] MC fixpoint: {mc['distinct']} distinct states, {len(mc['replays'])} behaviours, {len(jobs)} replayed on salsa, "
+        f"{checked} fetches compared, value mismatches={len(wrong)} (each is judged by the trace monitor), "
+        f"execution-sequence drift={len(drift)} ({mc['wall_s']:.0f}s)")
+    if drift:
+        log(f"DRIFT: salsa's sequence of body executions differs from the Fixpoint model's in {len(drift)} fetches "
+            f"(not a property violation by itself). e.g. {json.dumps(drift[:1])}")
     return info
 
 
